@@ -542,8 +542,7 @@ class XsdAttributeGroup(
                 assert name is not None, "None key resolves to an xs:attribute"
                 assert isinstance(base_attr, XsdAttribute), "invalid base attribute"
 
-                if self.derivation == 'restriction' and \
-                        attr.type.name != nm.XSD_ANY_SIMPLE_TYPE and \
+                if self.derivation == 'restriction' and attr.use != 'prohibited' and \
                         not attr.type.is_derived(base_attr.type, 'restriction'):
                     msg = _("Attribute type is not a restriction of the base attribute type")
                     self.parse_error(msg)
